@@ -43,6 +43,11 @@ pub struct TunnelCase {
     /// next datagrams still go to the requested target and nothing goes to the stranger.
     #[serde(default)]
     pub stranger_after: Option<u8>,
+    /// Some(k): after exchange k the target's port is closed for a moment; a datagram sent meanwhile is
+    /// lost (nothing can deliver it), then the target is back on the same address and the association
+    /// must go on delivering
+    #[serde(default)]
+    pub target_restart_after: Option<u8>,
 }
 
 pub struct TunnelFam;
@@ -61,8 +66,8 @@ impl Family for TunnelFam {
         "tunnel"
     }
     fn strategy(&self, _tier: Tier) -> BoxedStrategy<TunnelCase> {
-        (proptest::collection::vec((size_strategy(), proptest::collection::vec(size_strategy(), 0..3)), 1..8), proptest::bool::weighted(0.25), proptest::option::weighted(0.3, 0u8..3))
-            .prop_map(|(exchanges, v6_target, stranger_after)| TunnelCase { exchanges, v6_target, stranger_after })
+        (proptest::collection::vec((size_strategy(), proptest::collection::vec(size_strategy(), 0..3)), 1..8), proptest::bool::weighted(0.25), proptest::option::weighted(0.3, 0u8..3), proptest::option::weighted(0.25, 0u8..3))
+            .prop_map(|(exchanges, v6_target, stranger_after, target_restart_after)| TunnelCase { exchanges, v6_target, stranger_after, target_restart_after })
             .boxed()
     }
     fn case_budget_s(&self) -> u64 {
@@ -74,7 +79,7 @@ impl Family for TunnelFam {
         let r = with_world(|w| {
             w.rt.block_on(async {
                 let case = c;
-                let target = if case.v6_target {
+                let mut target = if case.v6_target {
                     match UdpTarget::start(IpAddr::V6(std::net::Ipv6Addr::LOCALHOST)).await {
                         Ok(t) => t,
                         Err(_) => UdpTarget::start(IpAddr::V4(worker_ip_n(20))).await?,
@@ -93,6 +98,7 @@ impl Family for TunnelFam {
                 let mut relay_addr: Option<SocketAddr> = None;
                 let stranger = UdpSocket::bind(SocketAddr::new(if target.addr.is_ipv6() { IpAddr::V6(std::net::Ipv6Addr::LOCALHOST) } else { IpAddr::V4(worker_ip_n(22)) }, 0)).await.map_err(|e| infra(format!("stranger udp bind: {e}")))?;
                 let mut stray_sent = false;
+                let mut restarted = false;
                 for (k, (size, replies)) in case.exchanges.iter().enumerate() {
                     let payload = keyed(k as u32, 6, 0, *size);
                     let before = target.count();
@@ -123,6 +129,21 @@ impl Family for TunnelFam {
                             None => return Err(Fail::plain("C15.one", format!("reply #{j} to datagram #{k} ({rs} bytes) never reached the application"))),
                         }
                     }
+                    if case.target_restart_after == Some(k as u8) {
+                        // the target goes away, one datagram runs into the closed port, the target returns
+                        let sock_keepalive = target.sock.clone();
+                        drop(sock_keepalive);
+                        let (addr, record) = target.stop().await;
+                        tokio::time::sleep(Duration::from_millis(30)).await;
+                        app.send_to(b"sent-while-the-target-was-away", assoc).await.map_err(|e| infra(format!("app send: {e}")))?;
+                        tokio::time::sleep(Duration::from_millis(300)).await;
+                        target = UdpTarget::start_at(addr, record).await?;
+                        // (should that datagram have been on its way for so long that it finds the target back,
+                        // it is delivered - before the next exchange takes its snapshot)
+                        tokio::time::sleep(Duration::from_millis(200)).await;
+                        while recv_dgram(&app, 50).await.is_some() {}
+                        restarted = true;
+                    }
                     if case.stranger_after == Some(k as u8) {
                         stranger.send_to(b"not-from-the-target", relay_addr.unwrap()).await.map_err(|e| infra(format!("stranger send: {e}")))?;
                         stray_sent = true;
@@ -137,7 +158,8 @@ impl Family for TunnelFam {
                 }
                 // nothing else arrives anywhere
                 ensure!(recv_dgram(&app, 50).await.is_none(), "C15.none", "the application received a datagram nobody sent");
-                ensure!(target.count() == case.exchanges.len(), "C15.none", "the target received {} datagrams, {} were sent", target.count(), case.exchanges.len());
+                let late = restarted && target.received.lock().unwrap().iter().any(|(_, d)| d == b"sent-while-the-target-was-away");
+                ensure!(target.count() == case.exchanges.len() + late as usize, "C15.none", "the target received {} datagrams, {} were sent", target.count(), case.exchanges.len() + late as usize);
                 Ok(())
             })
         });
@@ -152,6 +174,7 @@ impl Family for TunnelFam {
         out.class_if(case.exchanges.iter().any(|(_, r)| r.len() >= 2), "several-replies");
         out.class_if(case.v6_target, "ipv6-target");
         out.class_if(case.stranger_after.is_some_and(|k| (k as usize) + 1 < case.exchanges.len()), "stray-datagram-then-more-traffic");
+        out.class_if(case.target_restart_after.is_some_and(|k| (k as usize) + 1 < case.exchanges.len()), "target-away-for-a-moment-then-more-traffic");
         Ok(out)
     }
 }
